@@ -24,6 +24,7 @@ func runC05(c *core.Ctx) {
 	c.RuleDoc("R05.2", "path fields in the caller's namespace; inner/OS-namespace errors translated with the right pair")
 	c.RuleDoc("R05.3", "mount translator is expansive")
 	c.RuleDoc("R05.10", "a two-name helper translates its delegate's error with both of the caller's names")
+	c.RuleDoc("R05.13", "where the parent of a name was looked up and is not a directory the failure matches ErrNotDir")
 	c.RuleDoc("R05.12", "a failing path above a view's base (or the OS root) is reported as \".\"")
 	c.RuleDoc("R05.11", "the mount error translator compares the failing path only within its own namespace")
 	c.RuleDoc("R05.9", "the error of a recursive call on other names is wrapped again under the caller's names")
@@ -65,6 +66,7 @@ func runC05(c *core.Ctx) {
 		r05TwoNameTranslation(c, p)
 		r05NamespaceTyped(c, p)
 		r05AncestorsOfTheRoot(c, p)
+		r05ParentNotDirSaysSo(c, p)
 		if p.Target == load.Linux {
 			r05NotDirThroughFile(c, p, "R05.7")
 		}
@@ -79,6 +81,7 @@ func runC05(c *core.Ctx) {
 	c.Floor("R05.10", 1)
 	c.Floor("R05.11", 2)
 	c.Floor("R05.12", 2)
+	c.Floor("R05.13", 2)
 }
 
 func nameParamIdx(fn *ssa.Function) []int {
@@ -385,6 +388,9 @@ func strNonEmpty(p *load.Program, v ssa.Value, at ssa.Instruction, depth int, se
 	case *ssa.Call:
 		callee := ssax.StaticCallee(x)
 		switch {
+		case ssax.CalleeIs(x, "strings", "TrimSuffix") && startsWithSlash(x.Call.Args[1]):
+			// the suffix begins with "/": the result is empty only if the string begins with "/" too, which no path does (A1)
+			return strNonEmpty(p, x.Call.Args[0], at, depth+1, seen)
 		case ssax.CalleeIs(x, "strings", "TrimPrefix") && trimsWholeElements(x, at):
 			// the prefix ends in "/": the result is empty only if the string ends in "/" too, which no path does (A1)
 			return strNonEmpty(p, x.Call.Args[0], at, depth+1, seen)
@@ -463,6 +469,21 @@ func strNonEmpty(p *load.Program, v ssa.Value, at ssa.Instruction, depth int, se
 
 // trimsWholeElements: the prefix argument of this TrimPrefix call ends in "/" — syntactically (x + "/", a constant)
 // or as strings.TrimSuffix(s, n) where strings.HasSuffix(s, "/"+n) is known to hold at `at`.
+// startsWithSlash: a string constant beginning with "/", or a concatenation whose leftmost operand is one.
+func startsWithSlash(v ssa.Value) bool {
+	for i := 0; i < 6; i++ {
+		if s, ok := ssax.ConstString(v); ok {
+			return strings.HasPrefix(s, "/")
+		}
+		bo, ok := v.(*ssa.BinOp)
+		if !ok || bo.Op != token.ADD {
+			return false
+		}
+		v = bo.X
+	}
+	return false
+}
+
 func trimsWholeElements(cl *ssa.Call, at ssa.Instruction) bool {
 	y := cl.Call.Args[1]
 	if s, ok := ssax.ConstString(y); ok {
@@ -1039,5 +1060,78 @@ func r05AncestorsOfTheRoot(c *core.Ctx, p *load.Program) {
 		key := fname(fn) + "|ancestors-of-the-root-answer-dot"
 		c.Check(guards >= tf.min, "R05.12", key, p.Pos(fn.Pos()), fmt.Sprintf("%d ancestor guard(s) returning \".\"", guards),
 			fmt.Sprintf("%s cuts the view's base off a failing path but does not answer a failing path ABOVE the base (found %d guard(s) of the form HasPrefix(base, p+sep) -> \".\", need %d): Sub(fs, \"f/base\") with f a regular file, then MkdirAll(view, \"x\"), reports the parent's path \"f\" (os.FS: an OS path outside the root)", fname(fn), guards, tf.min))
+	}
+}
+
+// r05ParentNotDirSaysSo (R05.13): in the key-value FS, the edge on which IsDir() of the looked-up PARENT of a name
+// parameter is false returns an error whose sentinel is ErrNotDir (os: ENOTDIR), not ErrNotExist or anything else.
+// Two parent checks merged into one `err != nil || !parent.IsDir()` with one sentinel answer a path through a
+// regular file with "does not exist".
+func r05ParentNotDirSaysSo(c *core.Ctx, p *load.Program) {
+	sh := findKVShape(p)
+	if sh == nil {
+		c.Hard("anchor: keyvalue.FS shape")
+		return
+	}
+	var names []string
+	for n := range sh.methods {
+		names = append(names, n)
+	}
+	sort.Strings(names)
+	for _, mn := range names {
+		fn := sh.methods[mn]
+		if fn == nil || fn.Blocks == nil {
+			continue
+		}
+		ord := ordinals{}
+		for _, b := range fn.Blocks {
+			ifi, ok := b.Instrs[len(b.Instrs)-1].(*ssa.If)
+			if !ok {
+				continue
+			}
+			cnd, val := ssax.StripNot(ifi.Cond, true)
+			cl, ok := cnd.(*ssa.Call)
+			if !ok || !isIsDirCall(cl) {
+				continue
+			}
+			var recv ssa.Value
+			if cl.Call.IsInvoke() {
+				recv = cl.Call.Value
+			} else if len(cl.Call.Args) > 0 {
+				recv = cl.Call.Args[0]
+			}
+			// whose look-up: info() of a looked-up file, or the info a Stat returned
+			lp := sh.lookupPathOf(recv, 0)
+			if lp == nil {
+				if inner, ok := recv.(*ssa.Call); ok {
+					var r2 ssa.Value
+					if inner.Call.IsInvoke() {
+						r2 = inner.Call.Value
+					} else if len(inner.Call.Args) > 0 {
+						r2 = inner.Call.Args[0]
+					}
+					lp = sh.lookupPathOf(r2, 0)
+				}
+			}
+			if lp == nil {
+				continue
+			}
+			if _, isParam := pathDirOf(lp).(*ssa.Parameter); !isParam {
+				continue // not the parent of a name the caller gave
+			}
+			// the edge on which IsDir() is false
+			notDir := b.Succs[1]
+			if !val {
+				notDir = b.Succs[0]
+			}
+			_, ev, isErr := blockReturnsError(notDir)
+			if !isErr || ev == nil {
+				continue // the branch goes on (a create below it is judged elsewhere)
+			}
+			key := fname(fn) + "|" + ord.next("parent-not-a-directory")
+			info := classifyErr(ev)
+			c.Check(info.Sentinels["ErrNotDir"] && !info.Sentinels["ErrNotExist"], "R05.13", key, p.Pos(ifi.Cond.Pos()), "the not-a-directory edge of the parent look-up answers ErrNotDir",
+				fmt.Sprintf("%s: where the parent of the name exists and is not a directory the call fails with %s instead of ErrNotDir: a path through a regular file is reported like a missing one (os: ENOTDIR, which does not match ErrNotExist)", fname(fn), info))
+		}
 	}
 }
